@@ -33,7 +33,7 @@ ASSUMPTIONS = ["NumPy matmul/vdot/kron/transposes on dense arrays of <= 4096 row
                "compression_ is judged after max_sweeps<=6 sweeps from a start whose virtual spaces can hold the target "
                "(1site) or with non-binding opts_svd (2site); tolerance 1e-10 relative (iterative method; observed <= 5e-15)"]
 
-CT = 2.0e3            # arithmetic tolerance: CT * eps * scale   (scale = product / sum of operand norms)
+CT = 5.0e3            # arithmetic tolerance: CT * eps * scale   (scale = product / sum of operand norms)
 SCALARS = (2.0, -0.5, 1.5 - 0.5j, 3, 0.25j, -1, -2.5, 0.75 + 1.25j)
 NONBINDING = ({}, {"D_total": 100000}, {"tol": 1e-15}, {"tol": 1e-15, "D_total": 5000}, {"D_block": 10000},
               {"tol_block": 1e-15}, {"D_total": 4096, "tol": 0, "D_block": 4096})
@@ -42,21 +42,24 @@ NONBINDING = ({}, {"D_total": 100000}, {"tol": 1e-15}, {"tol": 1e-15, "D_total":
 def plan(tier):
     if tier == "thorough":
         return {"cases": 20000, "shards": 16, "budget_s": 800}
-    return {"cases": 2200, "shards": 8, "budget_s": 100}
+    return {"cases": 1800, "shards": 8, "budget_s": 100}
 
 
 def floors(tier):
-    k = 12 if tier == "thorough" else 1
-    f = {"evaluations": 600 * k, "nodes_compared": 1500 * k, "obs_sites_crosschecks": 800 * k, "obs_matrix_crosschecks": 800 * k,
-         "N=1": 20 * k, "N=2": 20 * k, "factor_nonunit_operands": 300 * k, "measure:overlap": 100 * k, "measure:mpo": 60 * k,
-         "measure:mpo-sum": 15 * k, "measure:mpo-pbc": 8 * k, "zipper": 40 * k, "compression:1site": 10 * k,
-         "compression:2site": 10 * k, "leaf:harness": 300 * k, "leaf:random": 60 * k, "leaf:product": 60 * k,
-         "leaf:from_tensor": 60 * k, "nonzero_charge_leaves": 100 * k, "complex_leaves": 200 * k}
-    f.update({"central:reverse": 5 * k, "central_block_comparisons": 60 * k, "central:add-multiply-rejected": 20 * k})
+    """About a quarter of the smallest count seen over seeds 0..5 on the unchanged tree (thorough: x8 for 11x the cases)."""
+    k = 8 if tier == "thorough" else 1
+    f = {"evaluations": 1200, "nodes_compared": 3000, "numbers_compared": 400, "obs_sites_crosschecks": 2000,
+         "obs_matrix_crosschecks": 2000, "operands": 1200, "factor_nonunit_operands": 900, "N=1": 30, "N=2": 80, "N=5": 60, "N=6": 60,
+         "measure:overlap": 100, "measure:mpo": 70, "measure:mpo-sum": 30, "measure:mpo-pbc": 20, "measure:env-sum": 20,
+         "measure:on_bra": 8, "measure:charged-op:nonzero": 4, "zipper": 60, "zipper:pbc": 15, "compression:1site": 12,
+         "compression:2site": 12, "leaf:harness": 700, "leaf:random": 200, "leaf:product": 200, "leaf:from_tensor": 120,
+         "from_tensor:balance": 35, "from_tensor:first": 35, "from_tensor:last": 35, "nonzero_charge_leaves": 400,
+         "complex_leaves": 600, "addn_mixed_sign_or_phase": 25, "matmul_mode_meta": 20, "central:reverse": 5,
+         "central_block_comparisons": 70, "central:add-multiply-rejected": 35}
     for op in ("add", "sub", "addn", "mul", "rmul", "div", "neg", "npmul", "matmul:mpo@mps", "matmul:mpo@mpo", "conj", "T",
                "H", "reverse", "copy"):
-        f["op:" + op] = 5 * k
-    return f
+        f["op:" + op] = 30
+    return {name: v * k for name, v in f.items()}
 
 
 # ------------------------------------------------------------------ type signatures of tree nodes
@@ -160,14 +163,14 @@ class Env:
         while self.nmax_mpo > 1 and len(loc.charges) ** (2 * self.nmax_mpo) > cap_blocks:
             self.nmax_mpo -= 1
         r = rng.random()
-        if r < 0.12:
+        if r < 0.05:
             self.N = 1
-        elif r < 0.24:
+        elif r < 0.12:
             self.N = 2
-        elif r < 0.75:
-            self.N = rng.randint(1, self.nmax_mpo)
+        elif r < 0.62:
+            self.N = max(rng.randint(1, self.nmax_mpo), rng.randint(1, self.nmax_mpo))
         else:
-            self.N = rng.randint(1, nmax)
+            self.N = max(rng.randint(2, nmax), rng.randint(2, nmax))
         self.allow_mpo = self.N <= self.nmax_mpo
         self.dmax = 3 if self.N <= 4 else 2
         self.leafno = 0
